@@ -24,7 +24,9 @@ EXPLANATION = (
     "condition, create_grouping_map sends input index -> group number - 1; (D4) check() grades every answer list and "
     "get_best_result returns, on every path, an element of results whose index lies in the arg-max set of the row "
     "sums; (D5) with partial_credit false and not every entry ok is True, every entry gets ok=False and "
-    "grade_decimal=0; (D6) validate_submission dominates grading in perform_check.")
+    "grade_decimal=0; (D6) validate_submission dominates grading in perform_check; (D7) the Munkres solver itself is pinned to the "
+    "reviewed reference by the C06 rule families INIT / RESULT / STEPS (per-cell effect tables of every step): necessary structural "
+    "conditions of an optimal assignment, not a proof of optimality.")
 NOT_DECIDED = (
     "optimality of the assignment returned by the solver (C06's undecided clause: the check shows only that the "
     "matrix handed over and the way its answer is read back are right), the semantics of the subgraders, and the "
@@ -42,6 +44,7 @@ def check(ctx):
     d4_best(ctx, idx)
     d5_zeroing(ctx, idx)
     d6_order(ctx, idx)
+    d7_solver(ctx, idx)
 
 
 def _config_sub(expr, key):
@@ -1027,6 +1030,17 @@ def d6_order(ctx, idx):
                 'grading instead of ConfigError' % short(grading[0], 60), lib.loc(pc, v[0]))
 
 
+# ------------------------------------------------------------------------------- D7
+def d7_solver(ctx, idx):
+    """The statement of this property demands an *optimal* one-to-one assignment; the solver is pinned to the reviewed
+    reference (C06.D2 INIT, C06.D3 RESULT, C06.D4 STEPS) here as well, so a change of the solver is reported under this id."""
+    from . import c06
+    r = ctx.rule('D7.SOLVER', 'the assignment solver equals the reviewed Munkres reference (state re-initialised per solve, '
+                 'result extraction, step table, per-cell step effects) -- a pin to the reference, not a proof of optimality', floor=72)
+    with r:
+        c06.solver_rules(r, idx)
+
+
 # ------------------------------------------------------------------------ self-test
 _PC_OLD = ("        self.validate_submission(answers, student_list)\n\n        # Group the inputs in preparation for grading\n"
            "        grouped_inputs = self.groupify_list(self.grouping, student_list)\n")
@@ -1089,6 +1103,14 @@ MUTANTS = [
     Mutant('zeroing-stops-early', LG, "                    entry['grade_decimal'] = 0\n", "                    entry['grade_decimal'] = 0\n                    break\n", 'D5'),
     Mutant('zeroing-only-wrong-entries', LG, "                    entry['ok'] = False\n                    entry['grade_decimal'] = 0\n",
            "                    if entry['ok'] is not True:\n                        entry['ok'] = False\n                        entry['grade_decimal'] = 0\n", 'D5'),
+    # D7 (the solver; same edits as in C06)
+    Mutant('solver-step6-elif', MK, "                if not self.col_covered[j]:\n                    self.C[i][j] -= minval\n                    events += 1\n                if self.row_covered[i] and not self.col_covered[j]:\n                    events -= 2 # change reversed, no real difference\n",
+           "                elif not self.col_covered[j]:\n                    self.C[i][j] -= minval\n                    events += 1\n", 'D7'),
+    Mutant('solver-step6-skips-covered-rows', MK, "                if self.row_covered[i]:\n                    self.C[i][j] += minval\n                    events += 1\n                if not self.col_covered[j]:",
+           "                if self.row_covered[i]:\n                    continue\n                if not self.col_covered[j]:", 'D7'),
+    Mutant('solver-find-smallest-or', MK, "                if (not self.row_covered[i]) and (not self.col_covered[j]):\n                    if self.C[i][j] is not DISALLOWED and minval >",
+           "                if (not self.row_covered[i]) or (not self.col_covered[j]):\n                    if self.C[i][j] is not DISALLOWED and minval >", 'D7'),
+    Mutant('solver-marked-not-reset', MK, "        self.marked = self.__make_matrix(self.n, 0)\n\n        done = False", "\n        done = False", 'D7'),
     # D6
     Mutant('validation-dropped', LG, "        self.validate_submission(answers, student_list)\n\n        # Group the inputs", "        # Group the inputs", 'D6'),
     Mutant('validation-only-ordered', LG, "        self.validate_submission(answers, student_list)\n\n        # Group the inputs",
